@@ -133,45 +133,76 @@ func encodeResponse(ps []rc.P, cuts []int, stall bool) ([]byte, error) {
 	return out, nil
 }
 
-// Run performs one login against the script. ctxTimeout bounds the caller's context;
-// the watchdog is ctxTimeout + 3 s.
-func Run(cfg Config, s Script, ctxTimeout time.Duration) (res Result) {
-	bg, cancelBg := context.WithCancel(context.Background())
-	pipe := peer.NewPipe()
-	info := &tds.Info{Info: dsn.Info{Host: cfg.Server, Port: "5000", Username: cfg.User, Password: cfg.Password}, ClientHostname: cfg.Host,
+// Session is one connection over a scripted transport on which logins are performed.
+type Session struct {
+	pipe     *peer.Pipe
+	conn     *tds.Conn
+	ch       *tds.Channel
+	done     <-chan struct{}
+	cancelBg context.CancelFunc
+	bg       context.Context
+	info     *tds.Info
+}
+
+// NewSession sets the connection up (host names are taken from cfg).
+func NewSession(cfg Config) *Session {
+	s := &Session{pipe: peer.NewPipe()}
+	s.bg, s.cancelBg = context.WithCancel(context.Background())
+	s.info = &tds.Info{Info: dsn.Info{Host: cfg.Server, Port: "5000", Username: cfg.User, Password: cfg.Password}, ClientHostname: cfg.Host,
 		ChannelPackageQueueSize: 1000, PacketReadTimeout: 5}
-	if info.Host == "" {
-		info.Host = "srv"
+	if s.info.Host == "" {
+		s.info.Host = "srv"
 	}
-	if info.ClientHostname == "" {
-		info.ClientHostname = "client"
+	if s.info.ClientHostname == "" {
+		s.info.ClientHostname = "client"
 	}
-	conn, done, err := tds.VerifNewConn(bg, pipe, info, true)
+	conn, done, err := tds.VerifNewConn(s.bg, s.pipe, s.info, true)
 	if err != nil {
 		panic("loginpeer: VerifNewConn: " + err.Error())
 	}
-	res.Conn = conn
-	defer func() {
-		cancelBg()
-		pipe.Close()
-		deadline := time.After(3 * time.Second)
-		for {
-			select {
-			case <-done:
-				return
-			case <-deadline:
-				return
-			default:
-				conn.VerifConnErr()
-				time.Sleep(200 * time.Microsecond)
-			}
-		}
-	}()
+	s.conn, s.done = conn, done
 	ch, err := conn.NewChannel()
 	if err != nil {
 		panic("loginpeer: NewChannel: " + err.Error())
 	}
-	conf, err := tds.NewLoginConfig(info)
+	s.ch = ch
+	return s
+}
+
+// Close ends the connection and waits (bounded) for the reader.
+func (s *Session) Close() {
+	s.cancelBg()
+	s.pipe.Close()
+	deadline := time.After(3 * time.Second)
+	for {
+		select {
+		case <-s.done:
+			return
+		case <-deadline:
+			return
+		default:
+			s.conn.VerifConnErr()
+			time.Sleep(200 * time.Microsecond)
+		}
+	}
+}
+
+// Run performs one login against the script. ctxTimeout bounds the caller's context;
+// the watchdog is ctxTimeout + 3 s.
+func Run(cfg Config, s Script, ctxTimeout time.Duration) (res Result) {
+	sess := NewSession(cfg)
+	defer sess.Close()
+	return sess.Login(cfg, s, ctxTimeout)
+}
+
+// Login performs one login over the session's connection (a fresh LoginConfig each time).
+func (sess *Session) Login(cfg Config, s Script, ctxTimeout time.Duration) (res Result) {
+	pipe, conn, ch, bg := sess.pipe, sess.conn, sess.ch, sess.bg
+	res.Conn = conn
+	off0 := pipe.WrittenLen()
+	info := *sess.info
+	info.Info.Username, info.Info.Password = cfg.User, cfg.Password
+	conf, err := tds.NewLoginConfig(&info)
 	if err != nil {
 		res.Err = err
 		return res
@@ -205,7 +236,7 @@ func Run(cfg Config, s Script, ctxTimeout time.Duration) (res Result) {
 	}()
 	finish := func(o out) Result {
 		res.Err, res.Panic, res.Elapsed = o.err, o.pan, time.Since(start)
-		res.Written = pipe.Written()
+		res.Written = pipe.Written()[off0:]
 		for {
 			e := ch.VerifChanErr()
 			if e == nil {
@@ -224,11 +255,11 @@ func Run(cfg Config, s Script, ctxTimeout time.Duration) (res Result) {
 			return finish(o)
 		case <-watchdog:
 			res.TimedOut = true
-			res.Written = pipe.Written()
+			res.Written = pipe.Written()[off0:]
 			return res
 		default:
 		}
-		ps, n, err := pipe.WaitMessage(0, 20*time.Millisecond)
+		ps, n, err := pipe.WaitMessage(off0, 20*time.Millisecond)
 		if err == nil {
 			res.Msg1, off = ps, n
 		}
@@ -246,7 +277,7 @@ func Run(cfg Config, s Script, ctxTimeout time.Duration) (res Result) {
 			return finish(o)
 		case <-watchdog:
 			res.TimedOut = true
-			res.Written = pipe.Written()
+			res.Written = pipe.Written()[off0:]
 			return res
 		default:
 		}
